@@ -162,7 +162,13 @@ def chk_slice1d(n, lengths, index):
         got.extend(piece)
     if got != exp:
         return (f"_slice_1d|selects-different|{'neg' if neg else 'pos'}", f"n={n} lengths={lengths} index={index} plan={plan}: {got} != {exp}")
-    # (an empty piece for a block only adds a zero-size chunk; the property does not forbid it)
+    # "If the slice won't return any elements in the block, that block will not be
+    # in the output" (_slice_1d docstring).  An empty piece makes a zero-size chunk
+    # on a non-empty axis, which chunk unification downstream cannot broadcast
+    # (x[::3, :3:3, 5] + x raised): callers rely on it.  Exception: the documented
+    # x[:0] special case (a single empty piece for an empty selection).
+    if any(p == 0 for p in piece_lens) and not (len(plan) == 1 and not exp):
+        return ("_slice_1d|empty-piece", f"n={n} lengths={lengths} index={index} plan={plan}")
     try:
         nb = list(U.new_blockdim(n, list(lengths), index))
     except Exception as e:
